@@ -17,8 +17,9 @@ PROPS = {
         "note": "IMAGE LEVEL, proved for every size and content (Spec.samePicture: same geometry and the same 16-bit RGBA meaning at every stored position): depth16to8_lossless (exact path, all four "
                 "16-bit colour types, with or without key), rgb_to_gray_lossless (8/16 bit, key carried or dropped), drop_alpha_lossless (opaque alpha, 8/16 bit; via a characterisation of the scanning "
                 "fold), to_indexed_lossless (gray / gray+alpha / RGB / RGBA with or without key; build_palette specification by induction), indexed_to_channels_lossless (all four target types, "
-                "out-of-range index = opaque black on both sides), reduced_palette_lossless (invariant of the condensing loop). Still at per-pixel level only: 1/2/4<->8 bit packing, sorted_palette "
-                "and the interlacing change (their storage geometry is C18's subject); the chain over perform_reductions is tied by the lineage streams. Trusted: D1 (inflate∘deflate), "
+                "out-of-range index = opaque black on both sides), reduced_palette_lossless (invariant of the condensing loop), sorted_palette_lossless, expand_to_8_lossless (1/2/4 -> 8 bits, gray with or "
+                "without key and indexed: the 8-bit result shows what the packed rows showed, sample extraction per PNG 7.2, expandByte checked against it on all 256 bytes x 3 depths by kernel "
+                "evaluation). Still at per-pixel level only: packing 8 -> 1/2/4 bits and the interlacing change (their storage geometry is C18's subject); the chain over perform_reductions is tied by the lineage streams. Trusted: D1 (inflate∘deflate), "
                 "harness reference decoder (cross-checked against the png crate in C02).",
         "technique": "Lean 4 proof (per-pixel exactness lemmas) + exact model/implementation correspondence + e2e oracle",
         "partial_note": "image-level theorems proved for seven of the ten reductions; bit packing 1/2/4<->8 and the interlacing change are at per-pixel / geometry level; the chain over perform_reductions is tied by lineage streams",
